@@ -39,7 +39,7 @@ var CPULimit = 2 * time.Second
 
 func decode(format int, r io.Reader) (*modeling.Mesh, error) {
 	switch format {
-	case FPlyASCII, FPlyLE, FPlyBE:
+	case FPlyASCII, FPlyLE, FPlyBE, FPlyForeign:
 		return ply.ReadMesh(r)
 	case FSTL:
 		return stl.ReadMesh(r)
